@@ -270,6 +270,9 @@ DIRECTED = [
     # detached send in flight when its source host fails (and comes back before the natural end of the transfer)
     ("detached-inflight", _sc(*TWO, actors=[(0, ["dput m 1e6", "sleep 5"]), (1, ["get m"])]),
      _runs("df", [[_f("H", 0, 0.5)], [_f("H", 0, 0.5, 0.6)]], paths="AP"), ("hooks",)),
+    # two actors of the failed host blocked on the same comm: both must be killed (the first kill finishes the comm of the second)
+    ("same-host-comm", _sc(*TWO, actors=[(1, ["put m 1e5", "sleep 1"]), (1, ["get m", "sleep 1"]), (0, ["sleep 2"])]),
+     _runs("sh", [[_f("H", 1, 0.0)], [_f("H", 1, 1e-6)]], paths="TPA"), ("hooks",)),
     # detached send not yet matched when its source host fails; a get comes later
     ("detached-leftover", _sc(*TWO, actors=[(0, ["dput m 1e6", "sleep 5"]), (1, ["sleep 1", "get m"])]),
      _runs("dl", [[_f("H", 0, 0.5)]], paths="AT"), ("hooks",)),
